@@ -430,13 +430,11 @@ theorem setIoRatio_zero_spec (cfg : Cfg ρ) (s : St ρ) (r : ρ) :
     (setIoRatio cfg s r 0).ns = s.ns ∧
     (s.defR = none → (setIoRatio cfg s r 0).cur.mult = s.cur.mult ∧ (setIoRatio cfg s r 0).cur.sn = s.cur.sn ∧
         (setIoRatio cfg s r 0).cur.isD = s.cur.isD ∧ (setIoRatio cfg s r 0).cur.clk = s.cur.clk) ∧
-    (cfg.fixF13 = false → (setIoRatio cfg s r 0).slew = s.slew ∧ (setIoRatio cfg s r 0).newR = s.newR ∧
-        (setIoRatio cfg s r 0).cur.ss = s.cur.ss) ∧
-    (cfg.fixF13 = true → (setIoRatio cfg s r 0).slew = 0 ∧ (setIoRatio cfg s r 0).newR = none ∧
+    ((setIoRatio cfg s r 0).slew = 0 ∧ (setIoRatio cfg s r 0).newR = none ∧
         (setIoRatio cfg s r 0).cur.ss = 0 ∧ (setIoRatio cfg s r 0).fo.ss = 0) := by
   unfold setIoRatio
-  cases hd : s.defR <;> cases hf : cfg.fixF13 <;> by_cases hfade : s.fade = 0 <;>
-    simp [hd, hf, hfade, setStep, enter, enterStream]
+  cases hd : s.defR <;> by_cases hfade : s.fade = 0 <;>
+    simp [hd, hfade, setStep, enter, enterStream]
 
 /-- `vr_set_io_ratio(r, L)` with `L > 0`, field by field. -/
 theorem setIoRatio_slew_spec (cfg : Cfg ρ) (s : St ρ) (r : ρ) (L : Nat) (hL : L ≠ 0) :
@@ -735,10 +733,8 @@ theorem applyDefault_ss (cfg : Cfg ρ) (s : St ρ) :
     (applyDefault cfg s).cur.ss = s.cur.ss ∨ (applyDefault cfg s).cur.ss = 0 := by
   unfold applyDefault
   split
-  · obtain ⟨_, _, _, _, h5, h6⟩ := setIoRatio_zero_spec cfg s ‹_›
-    cases hf : cfg.fixF13 with
-    | false => left; exact (h5 hf).2.2
-    | true => right; exact (h6 hf).2.2.1
+  · obtain ⟨_, _, _, _, h5⟩ := setIoRatio_zero_spec cfg s ‹_›
+    right; exact h5.2.2.1
   · left; rfl
 
 theorem process_ss_sign (cfg : Cfg ρ) (s : St ρ) (olen0 : Nat) :
